@@ -1537,7 +1537,20 @@ macro_rules! public_decode_function{
                     // Wasn't read from `src`!, leave out_read to 0
                 }
                 DecoderResult::OutputFull => {
-                    panic!("Output buffer must have been too small.");
+                    // The pending byte did not fit (this happens when a
+                    // caller such as the with-replacement wrapper passes
+                    // the tail of a buffer that is already almost full).
+                    // Nothing was consumed, so keep the byte pending and
+                    // let the caller come back with more space.
+                    self.life_cycle = match first_byte {
+                        0xEFu8 => DecoderLifeCycle::SeenUtf8First,
+                        0xFEu8 => DecoderLifeCycle::SeenUtf16BeFirst,
+                        0xFFu8 => DecoderLifeCycle::SeenUtf16LeFirst,
+                        _ => {
+                            debug_assert_eq!(first_byte, 0xBBu8);
+                            DecoderLifeCycle::ConvertingWithPendingBB
+                        }
+                    };
                 }
             }
             return (first_result, out_read, first_written);
@@ -1581,7 +1594,17 @@ macro_rules! public_decode_function{
                     first_read = 0usize; // Wasn't read from `src`!
                 }
                 DecoderResult::OutputFull => {
-                    panic!("Output buffer must have been too small.");
+                    // The output of the two withheld bytes did not fit in
+                    // one go (e.g. two 2-byte characters checked against
+                    // the worst case of 3 bytes each in a 4-byte buffer).
+                    // Keep what has not been converted yet pending.
+                    self.life_cycle = if first_read == 1usize {
+                        DecoderLifeCycle::ConvertingWithPendingBB
+                    } else {
+                        debug_assert_eq!(first_read, 0usize);
+                        DecoderLifeCycle::SeenUtf8Second
+                    };
+                    first_read = 0usize; // Wasn't read from `src`!
                 }
             }
             return (first_result, first_read, first_written);
